@@ -285,6 +285,11 @@ class PathCond(Domain):
                 if isinstance(v, (ast.Tuple, ast.List, ast.Dict, ast.Set, ast.JoinedStr)) or (
                         isinstance(v, ast.Constant) and v.value is not None):
                     facts = facts | {f'notnone:{tgt.id}'}       # a display is never None (decides `x is None`)
+                elif isinstance(v, ast.BinOp) and isinstance(v.op, (ast.Add, ast.Sub, ast.Mult, ast.FloorDiv, ast.Div, ast.Mod,
+                                                                    ast.LShift, ast.RShift, ast.BitAnd, ast.BitOr)):
+                    facts = facts | {f'notnone:{tgt.id}'}       # neither is the result of arithmetic
+                elif isinstance(v, ast.Name) and f'notnone:{v.id}' in facts and v.id != tgt.id:
+                    facts = facts | {f'notnone:{tgt.id}'}       # nor a copy of such a value
         elif isinstance(st, (ast.AugAssign,)) and isinstance(st.target, ast.Name):
             facts = frozenset(x for x in facts if x != f'notnone:{st.target.id}')
             envd.pop(st.target.id, None)
